@@ -51,6 +51,13 @@ func classifyCond(cond ssa.Value, side bool) condClass {
 				if x.Op == token.NEQ {
 					isNil = !side
 				}
+				if call, ok := other.(*ssa.Call); ok && call.Call.IsInvoke() && call.Call.Method.Name() == "Err" {
+					recv := "ctx"
+					if _, f, ok := flow.FieldLoadOf(call.Call.Value); ok {
+						recv = f
+					}
+					return condClass{"ctxdone", recv, !isNil, other}
+				}
 				if _, f, ok := flow.FieldLoadOf(flow.ResolveLoad(other)); ok {
 					return condClass{"nil", f, isNil, other}
 				}
